@@ -14,7 +14,7 @@ class Ctx:
     # ---------------- builds (memoised within one process) ----------------
     def srcfacts(self):
         out = os.path.join(C.COQ, "gen", "Params.v")
-        rc, o, e = C.sh(["go", "run", ".", "-repo", C.REPO, "-out", out],
+        rc, o, e = C.sh(["go", "run", ".", "-repo", C.REPO, "-out", out, "-facts", os.path.join(C.COQ, "gen", "SrcFacts.v")],
                         cwd=os.path.join(C.VERIF, "harness", "srcfacts"), env=C.GOENV, timeout=300)
         return rc == 0, (o + e).strip()
 
